@@ -2307,19 +2307,32 @@ fn oracle_c08n(fields: &[&str]) -> String {
     };
     let scale = subs.iter().flat_map(|s| s.2.vals.iter()).fold(0.0f64, |a, b| a.max(b.abs()));
     for p in crate::exec::parse_points(fields[3 + 4 * n]) {
-        // only points well away from every border line: the border rules have a 1e-6 cell tolerance
-        let near = subs.iter().any(|s| {
+        // a point is on a border line (within 1e-9 rad: the nodes and edges of the queries), or well away from it
+        // (1e-3 cell); in between, the 1e-6 tolerances of the border rules decide and the oracle says nothing
+        let on = |a: f64, b: f64| (a - b).abs() < 1e-9;
+        let unclear = subs.iter().any(|s| {
             let r = &s.2;
-            let dl = ((p[0] - r.lon_w) / r.dlon).abs().min(((p[0] - r.lon_e) / r.dlon).abs());
-            let dp = ((p[1] - r.lat_s) / r.dlat).abs().min(((p[1] - r.lat_n) / r.dlat).abs());
-            dl < 1e-3 || dp < 1e-3
+            [(p[0], r.lon_w, r.dlon), (p[0], r.lon_e, r.dlon), (p[1], r.lat_s, r.dlat), (p[1], r.lat_n, r.dlat)].iter().any(|(x, l, d)| !on(*x, *l) && ((x - l) / d).abs() < 1e-3)
         });
         let got = g.at(&p, margin);
-        if near {
+        if unclear {
             continue;
         }
-        // the deepest sub-grid containing the point
-        let best = subs.iter().filter(|s| s.2.contains(p[0], p[1], 0.0)).max_by_key(|s| depth(&s.0));
+        // the NTv2 rule: a point on the northern or eastern border of a sub-grid is outside it (for the grid at the
+        // top this only means that the search does not descend). Closed extents with the snapped borders:
+        let closed = |r: &RefGrid| (p[1] > r.lat_s || on(p[1], r.lat_s)) && (p[1] < r.lat_n || on(p[1], r.lat_n)) && (p[0] > r.lon_w || on(p[0], r.lon_w)) && (p[0] < r.lon_e || on(p[0], r.lon_e));
+        let upper = |r: &RefGrid| on(p[1], r.lat_n) || on(p[0], r.lon_e);
+        let mut best = subs.iter().find(|s| s.1 == "NONE" && closed(&s.2));
+        if let Some(top) = best {
+            if !upper(&top.2) {
+                let mut cur = top;
+                while let Some(c) = subs.iter().find(|s| s.1 == cur.0 && closed(&s.2) && !upper(&s.2)) {
+                    cur = c;
+                }
+                best = Some(cur);
+            }
+        }
+        let _ = &depth;
         match (best, got) {
             (Some(s), Some(v)) => {
                 for b in 0..2 {
@@ -2329,7 +2342,13 @@ fn oracle_c08n(fields: &[&str]) -> String {
                     }
                 }
             }
-            (Some(s), None) => return format!("oracle FAIL NTv2: no value at ({}, {}) inside sub-grid {}", p[0], p[1], s.0),
+            (Some(s), None) => {
+                // (on a border line, whether a point a rounding error away from it is inside is not for the oracle to say)
+                let on_a_line = subs.iter().any(|s| on(p[0], s.2.lon_w) || on(p[0], s.2.lon_e) || on(p[1], s.2.lat_s) || on(p[1], s.2.lat_n));
+                if !on_a_line {
+                    return format!("oracle FAIL NTv2: no value at ({}, {}) inside sub-grid {}", p[0], p[1], s.0);
+                }
+            }
             (None, Some(v)) => {
                 // within the margin of a root grid this is legitimate
                 let root_ok = subs.iter().any(|s| s.1 == "NONE" && s.2.contains(p[0], p[1], margin + 1e-9));
